@@ -109,6 +109,13 @@ theorem validate_binds (c : Codec) (S : Scheme PK SK) (kp : Bytes → Except VEr
   obtain ⟨_, pk, a, _, _, h3, h4, h5, _, h7⟩ := (validate_ok_iff c S kp _ _ _ hdr body).mp h
   exact ⟨pk, a, h3, h5, h7, h4⟩
 
+/-- **The tie for `assocTW`**: the closure of the `take_while` in `AsEntry::associated_data`, as classified by
+the translator from the Rust source, is the comparison by value of the whole `AsEntry` that `assocTW`
+mirrors (`ASSOC_STOP_KIND`: 1 = `e.entry != *self`, 2 = local ISD-AS only, 0 = anything else).  If the code
+starts comparing something else, this obligation – and with it every theorem about `assocTW` as a
+description of the code – no longer checks. -/
+theorem assoc_stop_by_value : ASSOC_STOP_KIND = 1 := by decide
+
 /-- **The take_while form equals the index form when no earlier entry equals the current one.** -/
 theorem takewhile_eq_index (seg : Seg α) (i : Nat) (hi : i < seg.entries.length)
     (hfirst : ∀ j (hj : j < i), (seg.entries[j]'(Nat.lt_trans hj hi)).entry ≠ seg.entries[i].entry) :
